@@ -27,6 +27,10 @@ type ParseCase struct {
 	// Touch: accessor calls made on the receiver between the decode of A and the decode of B
 	// (a forwarder edits the header it received); the decode of B must not depend on them
 	Touch []TouchOp `json:"touch,omitempty"`
+	// Inner: B is additionally decoded as an encapsulated packet: an outer packet carries InnerOff filler bytes and
+	// B as its payload, the receiver decodes the outer packet and then, from its own Payload, the inner one
+	Inner    bool `json:"inner,omitempty"`
+	InnerOff int  `json:"inner_off,omitempty"`
 }
 
 type TouchOp struct {
@@ -366,6 +370,24 @@ func checkC02(r *run, c *ParseCase) (CaseInfo, error) {
 		}
 	}
 
+	if c.Inner {
+		ci.class("inner-packet-decoded-from-the-receivers-own-payload")
+		outer := append(make([]byte, 12+c.InnerOff), c.B...)
+		outer[0] = 0x80
+		var up rtp.Packet
+		if e := up.Unmarshal(outer); e != nil || len(up.Payload) != c.InnerOff+len(c.B) {
+			return ci, failf("harness: outer packet (12-byte header, %d filler bytes, inner packet) decodes to a %d-byte payload, %v", c.InnerOff, len(up.Payload), e)
+		}
+		in3 := up.Payload[c.InnerOff:]
+		err3 := up.Unmarshal(in3)
+		if !bytes.Equal(in3, c.B) {
+			return ci, failf("Unmarshal of the inner packet %s out of the receiver's own payload (offset %d) modified its input: %s", hx(c.B), c.InnerOff, hx(in3))
+		}
+		if got, want := decodeObs(&up, err3), decodeObs(&fresh, err); got != want {
+			return ci, failf("decode of the inner packet %s out of the receiver's own payload (offset %d) differs from a fresh decode:\n reused: %s\n fresh:  %s", hx(c.B), c.InnerOff, got, want)
+		}
+	}
+
 	return ci, nil
 }
 
@@ -421,6 +443,9 @@ func genParseCase(t *rapid.T) *ParseCase {
 			for i := 0; i < k; i++ {
 				c.Earlier = append(c.Earlier, genHostile(t, "earlier"))
 			}
+		}
+		if rapid.IntRange(0, 5).Draw(t, "inner") == 0 {
+			c.Inner, c.InnerOff = true, rapid.SampledFrom([]int{0, 1, 2, 4, 8, 12, 13}).Draw(t, "inneroff")
 		}
 		if rapid.IntRange(0, 3).Draw(t, "touch") == 0 {
 			for i, k := 0, rapid.IntRange(1, 3).Draw(t, "ntouch"); i < k; i++ {
@@ -513,7 +538,7 @@ func enumC02(r *run, maxTail int) {
 	r.col.Exhaustive(fmt.Sprintf("C02 structured short packets: 6 first bytes x 4 profiles x 0-3 words x all tails <=%d bytes over an 8-symbol alphabet", maxTail), envShards == 1)
 }
 
-const ruleC02 = "inputs: random byte strings, valid RFC images (reference builder) and 1-3 byte-level mutations of them (truncate/flip/set/add/insert/delete, biased to the header), plus an exhaustive enumeration of structured short packets over a boundary alphabet; 2/3 of the cases decode one to three earlier hostile inputs (often short, rejected ones) into the same receiver first (a third of them through one shared receive buffer; a quarter with 1-3 DelExtension/SetExtension calls on the receiver before the last decode - the value slices handed to SetExtension must stay untouched). Oracle: no panic, input unmodified, certificate walk of every accepted parse against the input bytes, Header/Packet agreement, fresh-vs-reused equality. Non-trivial = rejected input, accepted input with an extension, or reuse where the earlier input had more CSRCs/extensions; distinct = FNV-64 of the (A,B) pair"
+const ruleC02 = "inputs: random byte strings, valid RFC images (reference builder) and 1-3 byte-level mutations of them (truncate/flip/set/add/insert/delete, biased to the header), plus an exhaustive enumeration of structured short packets over a boundary alphabet; 2/3 of the cases decode one to three earlier hostile inputs (often short, rejected ones) into the same receiver first (a third of them through one shared receive buffer; a quarter with 1-3 DelExtension/SetExtension calls on the receiver before the last decode - the value slices handed to SetExtension must stay untouched; one reuse case in six also decodes the input as an inner packet out of the receiver's own payload). Oracle: no panic, input unmodified, certificate walk of every accepted parse against the input bytes, Header/Packet agreement, fresh-vs-reused equality. Non-trivial = rejected input, accepted input with an extension, or reuse where the earlier input had more CSRCs/extensions; distinct = FNV-64 of the (A,B) pair"
 
 func TestC02(t *testing.T) {
 	r := begin(t, "C02", "exploration", ruleC02)
